@@ -636,6 +636,14 @@ def core_spaces():
         _space("c05_loop_targets", loop_target_cases, "for-in / for-of over 6 target forms that are not a fresh var (existing local, parameter, "
                "variable already captured by a closure, member, element, computed member) x 6 uses (read in the body, closure made in the body, "
                "closure made before, nested function, after the loop, after break) x 3 scopes", "2 x 6 x 6 x 3", lambda cid, p, exp: True),
+        _space("c05_in_handlers", in_handler_cases, "every two-level nesting of 9 constructs x 8 exits that stay inside it x 2 positions, written "
+               "inside a finally block that runs with a pending exception, a catch block, a finally block that interrupts a return and an "
+               "ordinary finally block", "81 x 8 x 2 x 4", lambda cid, p, exp: True),
+        _space("c05_fn_in_statements", fn_in_statement_cases, "10 kinds of function (expression, block / expression arrows, method, getter, "
+               "declaration in a block, callback, two IIFE forms, nested arrow) with 8 kinds of body (return, return out of a loop / try-finally / "
+               "switch, break and continue of an inner loop, caught throw) defined and called inside 10 statement positions (try, catch and "
+               "finally blocks, loops, switch case, labelled block, try with a later throw, defined in try and called after)",
+               "10 x 8 x 10 x 2 x 2", lambda cid, p, exp: True),
         _space("c05_header_closures", header_closure_cases, "closures created in statement-header expressions (if/while/do/for init-test-update, "
                "switch discriminant and case test, return/throw operands, for-in/of subjects, ternary, logical, member key) capturing a "
                "parameter, a local, a later-written local, a grandparent variable or a global", "17 positions x 5 scopes",
@@ -741,6 +749,10 @@ def signature(sp, cid, payload, exp, obs):
             head = "evaluation order, %s operators" % grp
         else:
             head = "evaluation order, %s %s" % (grp, op)
+    elif parts[0] == "ih":
+        head = "control structure %s with exit %s inside a %s" % (parts[1], parts[2], parts[4])
+    elif parts[0] == "fs":
+        head = "%s with body `%s` defined and called in a %s" % (parts[1], parts[2], parts[3])
     elif parts[0] == "cl":
         head = "closure over %s (%s closures)" % (parts[1], {"fe": "function-expression", "arrow": "arrow",
                                                            "decl": "function-declaration"}[parts[5]])
@@ -750,6 +762,104 @@ def signature(sp, cid, payload, exp, obs):
     else:
         head = "completion value of a %s statement" % parts[2]
     return "%s|%s" % (head, kind), "%s: %s" % (head, kind)
+
+
+# ---------------------------------------------------------------------------------------------
+# whole control structures inside handler blocks, and function bodies written inside try / loop / switch statements
+
+IN_HANDLER_CONSTRUCTS = ["for", "forin", "forof", "switch", "sw_df_hit", "label", "trycatch", "tryfinally", "dowhile"]
+IN_HANDLER_PLACES = {
+    "finally-with-pending-exception": "try { try { throw new Error('boom') } finally { %s } } catch (e) { __out(['caught', e.message]) }",
+    "catch-block": "try { null.x } catch (e) { __out(['in catch', e.name]); %s }",
+    "finally-interrupting-return": "__out(['returned', (function () { try { return 'ret' } finally { %s } })()]);",
+    "finally-normal": "try { __out(1) } finally { %s }",
+}
+
+
+def in_handler_cases():
+    from mc.props import c02 as C02
+    out = []
+    for chain in itertools.product(IN_HANDLER_CONSTRUCTS, repeat=2):
+        for ex in ("none", "break", "continue", "lbreak0", "lbreak1", "lcontinue0", "lcontinue1", "throw"):
+            for pos in ("bare", "iter1"):
+                b = C02.inline_body(chain, ex, pos)
+                if b is None or P.early_error([("for", None, "false", None, b)], in_function=True):
+                    continue
+                if "continue" in ex and not any(k in P.LOOPS for k in chain):
+                    continue
+                if ex == "break" and not any(k in P.LOOPS or k in P.SWITCHES for k in chain):
+                    continue
+                body = P.stmts(b)
+                for place, tmpl in IN_HANDLER_PLACES.items():
+                    src = (P.PRELUDE + "function probe() { " + (tmpl % body) + " __out(-8); return 5 } "
+                           "try { __out(['probe', probe()]) } catch (e2) { __out(['outer', String(e2)]) }" + P.EPILOGUE)
+                    out.append(("ih/%s/%s/%s/%s :: %s" % (">".join(chain), ex, pos, place, src), {"src": src, "tl": 50}))
+    return out
+
+
+FN_KINDS = {
+    "function-expression": ("var fn = function (x) { %s };", "fn(%s)"),
+    "arrow-block": ("var fn = (x) => { %s };", "fn(%s)"),
+    "arrow-expression": ("var fn = (x) => (x > 0 ? x * 2 : -1);", "fn(%s)"),
+    "method": ("var ob = {m(x) { %s }};", "ob.m(%s)"),
+    "getter": ("var ob = {get p() { var x = 1; %s }};", "ob.p"),
+    "function-declaration-in-block": ("function fd(x) { %s }", "fd(%s)"),
+    "callback": ("var fn = function (x) { %s };", "[%s].map(fn)[0]"),
+    "iife": ("", "(function (x) { %s })(%s)"),
+    "arrow-iife": ("", "((x) => { %s })(%s)"),
+    "nested-arrow": ("var fn = (x) => { var inner = (y) => { %s }; return inner(x) };", "fn(%s)"),
+}
+FN_INNER = {
+    "return-value": "return x + 10;",
+    "return-from-loop": "for (var i = 0; i < 3; i++) { if (i == 1) return x + i; } return -1;",
+    "break-inner-loop": "var t = 0; for (var i = 0; i < 3; i++) { if (i == 1) break; t += 1 } return x + t;",
+    "continue-inner-loop": "var t = 0; for (var i = 0; i < 3; i++) { if (i == 1) continue; t += 1 } return x + t;",
+    "return-from-try-finally": "try { return x + 20 } finally { __out(-5) }",
+    "return-from-switch": "switch (x) { case 1: return 'one'; default: return 'other' }",
+    "throw-caught-inside": "try { throw x } catch (e) { return e + 30 }",
+    "no-return": "var unused = x;",
+}
+FN_PLACES = {
+    "try-block": "try { %(def)s __out(['in', %(call)s]); } catch (e) { __out(['catch', String(e)]) } finally { __out(-1) }",
+    "catch-block": "try { throw 7 } catch (e) { %(def)s __out(['in', %(call)s]); } finally { __out(-1) }",
+    "finally-block": "try { __out(0) } finally { %(def)s __out(['in', %(call)s]); }",
+    "try-inside-loop": "for (var q = 0; q < 2; q++) { try { %(def)s __out(['in', %(call)s]); } finally { __out(-1) } }",
+    "for-of-body": "for (var v of [1, 2]) { %(def)s __out(['in', %(call)s]); }",
+    "for-in-body": "for (var k in {a: 1}) { %(def)s __out(['in', %(call)s]); }",
+    "switch-case": "switch (1) { case 1: %(def)s __out(['in', %(call)s]); break; default: __out(-2) }",
+    "labelled-block": "L: { %(def)s __out(['in', %(call)s]); break L; }",
+    "try-then-later-throw": "try { %(def)s __out(['in', %(call)s]); throw 'later' } catch (e) { __out(['catch', String(e)]) }",
+    "defined-in-try-called-after": "try { %(def)s } finally { __out(-1) } __out(['after', %(call)s]);",
+}
+
+
+def fn_in_statement_cases():
+    out = []
+    for kn, (dtmpl, ctmpl) in FN_KINDS.items():
+        for inn, inner in FN_INNER.items():
+            if kn == "arrow-expression" and inn != "return-value":
+                continue
+            for pn, ptmpl in FN_PLACES.items():
+                if kn == "function-declaration-in-block" and pn == "defined-in-try-called-after":
+                    continue        # block-scoped in strict code (V8 table), function-scoped in the engine: a strictness difference
+                for arg in ("1", "2"):
+                    d = dtmpl % inner if "%s" in dtmpl else dtmpl
+                    if kn in ("iife", "arrow-iife"):
+                        call = ctmpl % (inner, arg)
+                    elif "%s" in ctmpl:
+                        call = ctmpl % arg
+                    else:
+                        call = ctmpl
+                    for scope in ("function", "top"):
+                        body = ptmpl % {"def": d, "call": call}
+                        if scope == "function":
+                            src = "var s = 1; function outer() { " + body + " __out(-9); return 'done' } __out(outer()); 0"
+                        else:
+                            if kn == "function-declaration-in-block":
+                                continue
+                            src = "var s = 1; " + body + " __out(-9); 0"
+                        out.append(("fs/%s/%s/%s/%s/%s :: %s" % (kn, inn, pn, arg, scope, src), {"src": src, "tl": 50}))
+    return out
 
 
 # ------------------------------------------------------------------ build-time self test
